@@ -213,11 +213,18 @@ CANARY_BASE = 1000000000
 
 def split_canaries(res, canary_ids):
     """Canary events are deliberately corrupted recordings appended to a batch: the trace spec
-    MUST reject each of them (otherwise the validator is blind -> machinery failure).
+    MUST reject them (otherwise the validator is blind -> machinery failure).
+    Ids below CANARY_BASE+100 are individual canaries (each must be rejected); ids from CANARY_BASE+100
+    form groups of 100 (several corruptions of the same kind applied to different events: at least one
+    of each group must be rejected, since a particular corruption can be semantically harmless).
     Returns the list of genuine (id, clause) verdicts."""
     from harness.tlc import MachineryError
     flagged = {i for i, _ in res['bad']}
-    missing = [c for c in canary_ids if c not in flagged]
+    groups = {}
+    for c in canary_ids:
+        k = c if c < CANARY_BASE + 100 else CANARY_BASE + 100 * ((c - CANARY_BASE) // 100)
+        groups.setdefault(k, []).append(c)
+    missing = [k for k, ids in groups.items() if not any(i in flagged for i in ids)]
     if missing:
         raise MachineryError('corrupted canary events were ACCEPTED by the trace spec: %r' % missing)
     cs = set(canary_ids)
